@@ -147,7 +147,8 @@ theorem ingest_spec (KB : Nat) (st : St V) (k : Nat) (ch : Option (V × Bool)) (
     (∀ e ∈ den (ingest st k ch).1.base (ingest st k ch).1.ops, e.key ≤ k) ∧
     (ingest st k ch).1.cutoff = st.cutoff ∧
     (ingest st k ch).1.base.map (·.sep) = st.base.map (·.sep) ∧
-    baseEnts (ingest st k ch).1.base = baseEnts st.base := by
+    baseEnts (ingest st k ch).1.base = baseEnts st.base ∧
+    (ingest st k ch).1.sepOv = st.sepOv := by
   have hsr : Sorted (restOf st.base) := hinv.sorted.append_right
   obtain ⟨ko, klog⟩ := keepUpToG_some_spec false st k hinv.wf hinv.gauge hsr hinv.low_le
   have klog := klog rfl
@@ -184,7 +185,7 @@ theorem ingest_spec (KB : Nat) (st : St V) (k : Nat) (ch : Option (V × Bool)) (
   | none =>
     have hres : ingest st k none = (st1, log) := by simp [ingest, ingestG, hpair]
     rw [hres]
-    refine ⟨hcont1, hlogeq, ?_, fun e he => Nat.le_of_lt (hden1_le e he), ko.cutoff, ko.sep, ko.ents⟩
+    refine ⟨hcont1, hlogeq, ?_, fun e he => Nat.le_of_lt (hden1_le e he), ko.cutoff, ko.sep, ko.ents, ko.sepOv⟩
     refine ⟨ko.wf, ko.gauge, ko.low_le, by rw [hcont1]; exact hc_sorted, ?_, ?_, ?_, ?_, ?_, hcb1⟩
     · intro e he; rw [hcont1] at he; exact (hmem e he).2.1
     · intro e he; rw [hcont1] at he; exact (hmem e he).2.2.1
@@ -208,7 +209,7 @@ theorem ingest_spec (KB : Nat) (st : St V) (k : Nat) (ch : Option (V × Bool)) (
       simp only [hden2]
       rw [write1_append_below hbelow, ko.den_eq, ko.rest_eq]
       simp [write1]
-    refine ⟨hcont2, hlogeq, ?_, ?_, ko.cutoff, ko.sep, ko.ents⟩
+    refine ⟨hcont2, hlogeq, ?_, ?_, ko.cutoff, ko.sep, ko.ents, ko.sepOv⟩
     · refine ⟨?_, ?_, ko.low_le, by rw [hcont2]; exact hc_sorted, ?_, ?_, ?_, ?_, ?_, hcb1⟩
       · exact wf_append.2 ⟨ko.wf, by intro op hop; simp at hop; subst hop; trivial⟩
       · simp only [hden2, gaugeOf_append, ko.gauge]; rfl
